@@ -63,6 +63,11 @@ impl RequestHandler<PrepareRenameRequest> for PrepareRenameRequestHandler {
                 // Adjust the offset to match the full line, not just the substring
                 let end = source_column + end;
 
+                if start >= end {
+                    // There is no identifier under the cursor (e.g. a '-' or '+' label, or a brace)
+                    return Ok(None);
+                }
+
                 // This is now the identifier under the cursor
                 let id = Identifier::from(line[start..end].iter().collect::<String>().as_str());
 
@@ -123,6 +128,18 @@ impl RequestHandler<Rename> for RenameHandler {
             DefinitionType::Filename(_) => Ok(None),
             DefinitionType::Symbol(def_symbol_nx) => {
                 if let Some(location) = &def.location {
+                    // Symbols that are not named by an identifier ('-' and '+' are defined by a block's braces)
+                    // cannot be renamed
+                    let def_text = {
+                        let sl = codegen.analysis().look_up(location.span);
+                        sl.file.source_slice(location.span).to_string()
+                    };
+                    if def_text.is_empty()
+                        || !def_text.chars().all(|c| c.is_alphanumeric() || c == '_')
+                    {
+                        return Ok(None);
+                    }
+
                     // First, determine all the query steps for every usage
                     let steps = def
                         .usages()
